@@ -19,7 +19,7 @@ RULE = ("Generated: portfolios (a) without inter-temporal coupling (contracts wi
         "split mapping are a bijection onto those of the unsplit problem and all steps lie on the original grid; the "
         "split solution transferred to the unsplit problem satisfies all its bounds and rows; (a) |V_split - "
         "V_unsplit| <= tol, (b) V_split <= V_unsplit + tol; nodal balance of the split output on the original grid "
-        "(C01's oracle). Non-trivial: >= 2 non-empty intervals and (a partial interval or wacc != 0 or a storage), "
+        "(C01's oracle); a fifth of the cases are fixed supply/demand profiles with a market in part of the horizon (intervals in which every variable is fixed, balanced or not): a reported solution must not contain an infeasible interval. Non-trivial: >= 2 non-empty intervals and (a partial interval or wacc != 0 or a storage), "
         "with non-zero optimum. Distinct = distinct spec hash.")
 ASSUMPTIONS = ["an infeasible interval makes the split problem report failure (no further claim)",
                "storages in (b): inflow and holding cost not combined (the constant holding cost of inflow differs by construction)"]
@@ -67,16 +67,38 @@ def _strategy(draw):
     return spec
 
 
+@st.composite
+def _fixed_profiles(draw):
+    """fixed supply / demand profiles and a market in part of the horizon: intervals in which every variable is
+    fixed, balanced or not (generator shared with C03)"""
+    from . import c03
+    spec = draw(c03._profiles())
+    spec["split"] = draw(st.sampled_from(["6h", "12h", "d", "d"]))
+    spec["category"] = "uncoupled"
+    return spec
+
+
 def strategy(tier):
-    return _strategy()
+    return st.one_of(_strategy(), _strategy(), _strategy(), _strategy(), _fixed_profiles())
 
 
 def check(spec):
     out = Outcome()
-    out.label("category:" + spec["category"], "interval:" + spec["split"], "gap" if spec.get("gap") else None)
+    out.label("category:" + spec["category"], "interval:" + spec["split"], "gap" if spec.get("gap") else None,
+              "fixed_profiles" if spec.get("profiles") else None)
     g = spec["grid"]
     if g.get("tz") and not (build._wall_ok(tl.end(g), g["tz"]) and build._wall_ok(tl.point(g, 0), g["tz"])):
         return out.drop("ambiguous_wall_time")     # pandas cannot build the interval range to such an end
+    if g.get("tz"):
+        # the same precondition in general: pandas itself must be able to build the range of interval boundaries
+        # (an anchored size such as 'W' makes it roll the end's wall time back to the anchor day, where it may not exist)
+        import pandas as pd
+        grid_ = build.build_grid(g)
+        try:
+            pd.date_range(start=grid_.start, end=grid_.end, freq=spec["split"], tz=grid_.tz)
+        except Exception as e:
+            if type(e).__name__ in ("NonExistentTimeError", "AmbiguousTimeError"):
+                return out.drop("pandas_interval_range_fails")
     rs = obs.Run(spec, split=spec["split"])
     if is_err(rs.op):
         return out.fail("setup_split_optim_problem raised " + rs.op.short())
@@ -93,6 +115,20 @@ def check(spec):
         if res != "inaccurate" and all(r[0] == "optimal" for r in refs):
             return out.fail("split optimize reports '%s' although every interval is feasible" % res)
         return out.drop("interval_infeasible" if res != "inaccurate" else "inaccurate")
+    if any(r[0] == "infeasible" for r in refs):
+        # a solution is reported although an interval has none: the slice of x must then violate that interval's problem
+        pos = 0
+        xs_all = np.asarray(res.x, float)
+        for k, (o_, r_) in enumerate(zip(ops, refs)):
+            n_ = len(o_.c)
+            if r_[0] == "infeasible" and pos + n_ <= len(xs_all):
+                raw_ = lpkit.from_op(o_)
+                worst, where = lpkit.residual(raw_, xs_all[pos:pos + n_])
+                if worst > 20 * core.tol_feas(raw_.scale()):
+                    return out.fail("split optimize returns a solution although interval %d is infeasible: its part of x violates %s by %g"
+                                    % (k, where, worst))
+                out.label("reference_wrongly_infeasible")
+            pos += n_
     resu = ru.optimize()
     if is_err(resu) or isinstance(resu, str):
         return out.drop("unsplit_no_solution")
